@@ -108,7 +108,7 @@ pub fn c02(index: &Index, m: &Model, rng: &mut Rng, out: &mut Vec<Violation>) ->
   let height = m.height.unwrap();
   let count = e(index.block_count())?;
   if count != height + 1 {
-    return Err(format!("index at {count} blocks, model at {}", height + 1));
+    return Err(format!("harness: index at {count} blocks, model at {}", height + 1));
   }
   let supply = first_sat(height + 1);
 
